@@ -15,6 +15,7 @@ from ..impl import Converter, canon, curies, record_set, to_record
 from ..refmodel import Model, mrec
 
 PROP = "C19"
+HASHSEEDS = (1, 2)  # thorough tier: the sweep is repeated under these PYTHONHASHSEED values (sets are iterated inside the code under test)
 from curies.discovery import discover  # noqa: E402
 
 URIS = [
@@ -108,6 +109,7 @@ def check(seq, di, cutoff, metaprefix, ei, ctx=None, want=None):
                 elif ctx is not None:
                     ctx.count("learned_uris_round_tripped")
     if ctx is not None:
+        ctx.digest((seq, di, cutoff, metaprefix, ei, sorted((r.prefix, r.uri_prefix) for r in res.records)))
         ctx.state(hash(canon(res)))
         if not fails:
             ctx.count("validated")
